@@ -75,6 +75,14 @@ def run(ctx):
         if b in fr:
             # the limits filter itself may remove in place (its retain was matched as the filter: kept iff compliant)
             bad = [(bi, nm) for bi, nm in bad if nm != 'Vec::retain']
+        if bad and b in (six, five) and all(nm.split('::')[-1] in ('filter', 'filter_map', 'flat_map', 'take_while', 'skip_while') for bi, nm in bad):
+            # the validation of the candidates written as an iterator filter: it is the FK gate iff, over all scenarios of the
+            # symbolic run, the solver returns exactly the candidates that are finite and pass the gate
+            f, tail = opw.solver_tail(ctx, b, b is five)
+            if f is not None and not f:
+                for bi, nm in bad:
+                    ctx.ok('R08.2', '%s/%s' % (b.path.split('::')[-1], nm), b.where(bi), 'removes exactly the candidates that are not finite or fail the gate (%d scenarios)' % getattr(tail, 'n_scenarios', 0))
+                bad = []
         for bi, nm in bad:
             ctx.violation('R08.2', '%s/%s' % (b.path.split('::')[-1], nm), b.where(bi), b.path, 'element-removing operation `%s` on the solution path' % nm)
         if not bad:
